@@ -284,22 +284,23 @@ func HarnessC16Alias(_ int) {
 	}) {
 		gotA, gotB = in.A.ID, in.B.ID
 	}
-	a0, b0, b1, a2 := vnPayload("a0"), vnPayload("b0"), vnPayload("b1"), vnPayload("a2")
+	a0, b1, b7 := vnPayload("a0"), vnPayload("b1"), vnPayload("b7")
 	common := make([]Arg, 0, 8)
 	common = append(common, Named("a", hP0{a0}))
-	f0, err0 := NewFunc(fn, append(common, Named("b", hP1{b0}))...)
+	// f0's defaults are exactly `common` (len 1, cap 8); fB's defaults extend the same backing array
+	f0, err0 := NewFunc(fn, common...)
 	fB, err1 := NewFunc(fn, append(common, Named("b", hP1{b1}))...)
 	vnAssert(err0 == nil && err1 == nil, "C16.alias.setup")
 	if err0 != nil || err1 != nil {
 		return
 	}
-	vnNote("two functions built from append(common, ...) with spare capacity")
-	r := f0.Call(Named("A", hP0{a2}))
-	vnAssert(r.Err() == nil && gotA == a2, "C16.alias.call-option-overrides-default")
+	vnNote("f0 built from common..., fB from append(common, b)...; f0 is called with its own b")
+	r := f0.Call(Named("B", hP1{b7}))
+	vnAssert(r.Err() == nil && gotA == a0 && gotB == b7, "C16.alias.call-option-supplies-the-missing-key")
 	r = fB.Call()
 	vnAssert(r.Err() == nil, "C16.alias.second-function-call-succeeds")
 	vnAssert(gotA == a0 && gotB == b1, "C16.alias.other-function's-defaults-are-untouched")
 	r = f0.Call()
-	vnAssert(r.Err() == nil && gotA == a0, "C16.alias.default-applies-again")
+	vnAssert(r.Err() != nil, "C16.alias.f0-still-lacks-b-without-a-call-option")
 	vnCover("C16.alias-checked")
 }
